@@ -15,11 +15,17 @@ VEC = ("bv", "u", "s")
 # forms the statement names explicitly ("compile-time errors in every assignment form (<<=, @=, ^=, .next/.value/
 # .push, slices and elements)"); for the others (initialisation, port connection, merges) the first sentence applies:
 # rejected or value preserved
+VIEW_FORMS = tuple(f"{p}_{r}" for p in ("view", "vview", "sview") for r in ("bv", "u", "s"))
+# view_<r>:  self.o.<view> <<= src   (o: output port of root kind r, the target type is the VIEW's type)
+# vview_<r>: v.<view> @= src         (v: Variable of root kind r)
+# sview_<r>: self.o[n:1].<view> <<= src   (view of a slice of a wider root)
 EXPLICIT_FORMS = ("ilshift", "ilshift_conc", "imatmul", "ixor", "next", "value", "push", "slice_bv", "slice_u",
-                  "slice_s", "elem_vec", "elem_arr")
+                  "slice_s", "elem_vec", "elem_arr") + VIEW_FORMS
+VIEW_ATTR = {"u": "unsigned", "s": "signed", "bv": "bitvector"}
 
 FORMS = ["ilshift", "ilshift_conc", "imatmul", "ixor", "next", "value", "push", "slice_bv", "slice_u", "slice_s",
          "elem_vec", "elem_arr", "init_signal", "init_variable", "port_in", "port_out", "ret_merge", "ifexp_merge"]
+FORMS += list(VIEW_FORMS)
 SEQ_ONLY_QUAL = ("variable",)
 
 
@@ -160,7 +166,9 @@ def targets(W):
 def quals_for(S, form):
     if S[0] not in TYPED:
         return ["literal"]
-    if form in ("port_in", "port_out"):
+    if form in VIEW_FORMS:
+        q = ["port", "temp"]
+    elif form in ("port_in", "port_out"):
         q = ["port", "signal"]
     elif form == "ilshift_conc":
         q = ["port", "signal", "temp", "const"]
@@ -174,6 +182,15 @@ def quals_for(S, form):
 
 
 def form_applies(form, S, T):
+    if form in VIEW_FORMS:
+        p, r = form.split("_")
+        if T[0] not in VEC:
+            return False
+        if p != "view" and S[0] not in VEC:
+            return False  # literal / Bit / Null ... sources only with the plain view target
+        if p == "sview":
+            return T[0] != "bv"
+        return T[0] != r
     if form.startswith("slice_"):
         return T[0] == "bv"
     if form == "elem_vec":
@@ -265,9 +282,12 @@ class CellRender:
         """(declared type of the output port, default text, (lo bit, n bits) observed)"""
         T, f = self.T, self.form
         n = width(T)
-        if f.startswith("slice_"):
+        if f.startswith("slice_") or f.startswith("sview_"):
             K = {"bv": "BitVector", "u": "Unsigned", "s": "Signed"}[f[6:]]
             return f"{K}[{n + 2}]", "Null", (1, n)
+        if f in VIEW_FORMS:
+            K = {"bv": "BitVector", "u": "Unsigned", "s": "Signed"}[f.split("_")[1]]
+            return f"{K}[{n}]", None, (0, n)
         if f == "elem_vec":
             return "BitVector[3]", "Null", (1, 1)
         d = None
@@ -277,7 +297,7 @@ class CellRender:
 
     def container_width(self):
         n = width(self.T)
-        if self.form.startswith("slice_"):
+        if self.form.startswith("slice_") or self.form.startswith("sview_"):
             return n + 2
         if self.form == "elem_vec":
             return 3
@@ -333,6 +353,9 @@ class CellRender:
         if f in ("imatmul", "value"):
             for k in range(len(self.consts)):
                 decl.append(f"        v{i}_{k} = Variable[{ty(T)}]()")
+        if f.startswith("vview_"):
+            for k in range(len(self.consts)):
+                decl.append(f"        v{i}_{k} = Variable[{self.container()[0]}]()")
         if f == "elem_arr":
             for k in range(len(self.consts)):
                 decl.append(f"        ar{i}_{k} = Signal[Array[{ty(T)}, 2]]()")
@@ -393,6 +416,12 @@ class CellRender:
                 L.append(f"            {tgt}.push = {src}")
             elif f.startswith("slice_"):
                 L.append(f"            {tgt}[{lo + n - 1}:{lo}] <<= {src}")
+            elif f.startswith("view_"):
+                L.append(f"            {tgt}.{VIEW_ATTR[T[0]]} <<= {src}")
+            elif f.startswith("vview_"):
+                L += [f"            v{i}_{k}.{VIEW_ATTR[T[0]]} @= {src}", f"            {tgt} <<= v{i}_{k}"]
+            elif f.startswith("sview_"):
+                L.append(f"            {tgt}[{lo + n - 1}:{lo}].{VIEW_ATTR[T[0]]} <<= {src}")
             elif f == "elem_vec":
                 L.append(f"            {tgt}[1] <<= {src}")
             elif f == "elem_arr":
